@@ -1,6 +1,7 @@
 #!/bin/bash
 # run_thorough_snapshot.sh <ids...>: under `vp run`, the thorough tier of the given properties from this snapshot (diagnostic)
 cd "$(dirname "$0")/.."
+[ -n "$VP_RUN_REPO" ] && export VERIF_REPO=$VP_RUN_REPO    # under vp run --with-repo: the snapshot of /repo, not /repo itself
 ./check --setup > setup.log 2>&1
 for p in "$@"; do
   /usr/bin/time -f "$p %es" ./check $p --tier thorough 2>&1 | grep -E "VIOLATION|thorough:|^C[0-9]+ [0-9.]+s" 
